@@ -242,6 +242,9 @@ class FloatBackend(BackendBase):
     def const(self, v):
         return v
 
+    def alias(self, a):
+        return _data_of(a)
+
     def sym_float(self, name, lo, hi):
         v = float(self._draw((), lo=lo, hi=hi))
         self.inputs[name] = v
@@ -361,6 +364,22 @@ class SymBackend(BackendBase):
 
     def const(self, v):
         return v
+
+    def alias(self, a):
+        """replace entries by the alias variables the engine already introduced for identical polynomials
+        (e.g. the entries of a matrix that was handed to a stub)"""
+        from .array import SymArray as _SA, obj as _obj, reported_dtype as _rd
+
+        ao = _obj(_data_of(a))
+        cache = self.ctx.caches.get("alias", {})
+        out = np.empty(ao.shape, dtype=object)
+        for idx in np.ndindex(*ao.shape):
+            v = ao[idx]
+            if isinstance(v, Sym) and v.p.key() in cache:
+                out[idx] = Sym(cache[v.p.key()])
+            else:
+                out[idx] = v
+        return _SA(out, _rd(_data_of(a)))
 
     def sym_float(self, name, lo, hi):
         """a float parameter (passes isinstance(x, float)) that is symbolic in [lo, hi]"""
